@@ -1,1 +1,191 @@
-// harness bodies compiled inside quinn-proto/src/cid_queue.rs (feature __verif-hooks)
+// Harness bodies for quinn-proto/src/cid_queue.rs (remote connection IDs).
+
+const V62: u64 = 1 << 62;
+
+fn cid_of(tag: u8) -> ConnectionId {
+    ConnectionId::new(&[tag; 8])
+}
+
+fn tok_of(tag: u8) -> ResetToken {
+    ResetToken::from([tag; crate::RESET_TOKEN_SIZE])
+}
+
+/// Abstract ring content: slot `s` (counted from the cursor) holds sequence number offset + s.
+#[derive(Clone, Copy)]
+struct Abs {
+    occ: [bool; 5],
+    tag: [u8; 5],
+    has_tok: [bool; 5],
+}
+
+fn build(cursor: usize, offset: u64, a: &Abs) -> CidQueue {
+    let mut buffer: [Option<CidData>; 5] = [None; 5];
+    let mut s = 0;
+    while s < 5 {
+        if a.occ[s] {
+            buffer[(cursor + s) % 5] = Some((cid_of(a.tag[s]), if a.has_tok[s] { Some(tok_of(a.tag[s])) } else { None }));
+        }
+        s += 1;
+    }
+    CidQueue { buffer, cursor, offset }
+}
+
+/// Representation invariant: the active slot is occupied; only the initial CID (sequence 0, active)
+/// lacks a reset token; sequence numbers stay in the varint domain.
+fn inv(cursor: usize, offset: u64, a: &Abs) -> bool {
+    if cursor >= 5 || offset >= V62 - 8 || !a.occ[0] {
+        return false;
+    }
+    let mut s = 0;
+    while s < 5 {
+        if a.occ[s] && !a.has_tok[s] && !(s == 0 && offset == 0) {
+            return false;
+        }
+        s += 1;
+    }
+    true
+}
+
+fn inv_q(q: &CidQueue) -> bool {
+    if q.cursor >= 5 || q.buffer[q.cursor].is_none() {
+        return false;
+    }
+    let mut s = 0;
+    while s < 5 {
+        if let Some((_, None)) = q.buffer[(q.cursor + s) % 5] {
+            if !(s == 0 && q.offset == 0) {
+                return false;
+            }
+        }
+        s += 1;
+    }
+    true
+}
+
+/// Looks up what the queue stores for sequence number `seq`.
+fn lookup(q: &CidQueue, seq: u64) -> Option<CidData> {
+    if seq < q.offset || seq - q.offset >= 5 {
+        return None;
+    }
+    q.buffer[(q.cursor + (seq - q.offset) as usize) % 5]
+}
+
+/// C03.g / C09: one `CidQueue::insert` (NEW_CONNECTION_ID) from ANY ring state satisfying the
+/// invariant, for every (sequence, retire_prior_to <= sequence) < 2^62: no unwrap/expect fires;
+/// too-old sequence numbers => Retired, numbers beyond the window => ExceedsLimit, both without
+/// touching the state; otherwise the new CID is stored under its sequence number, every CID the
+/// peer asked to retire is gone, every other stored CID is still there, the active CID is the
+/// smallest remaining one (>= retire_prior_to), the reported retired range starts at the old
+/// active sequence, is non-empty and at most 5 long, and the invariant is preserved.
+pub fn insert_step(cursor: u8, offset: u32, occ: [bool; 5], tag: [u8; 5], has_tok: [bool; 5], sequence: u32, retire_prior_to: u32, new_tag: u8, probe: u8) -> u32 {
+    // (u32 inputs: the ring index is a 64-bit `% 5` in the real code; keeping the upper bits
+    // constant is what makes the divider circuit tractable for the SAT back end)
+    let (offset, sequence, retire_prior_to) = (offset as u64, sequence as u64, retire_prior_to as u64);
+    let a = Abs { occ, tag, has_tok };
+    let cursor = cursor as usize;
+    if !inv(cursor, offset, &a) || sequence >= V62 || retire_prior_to > sequence || probe >= 5 {
+        return 0;
+    }
+    let mut q = build(cursor, offset, &a);
+    let r = q.insert(NewConnectionId { sequence, retire_prior_to, id: cid_of(new_tag), reset_token: tok_of(new_tag) });
+    let retired_count = retire_prior_to.saturating_sub(offset);
+    let was_err = r.is_err();
+    let f;
+    if sequence < offset {
+        assert!(matches!(r, Err(InsertError::Retired)));
+        f = 2;
+    } else if sequence - offset >= 5 + retired_count {
+        assert!(matches!(r, Err(InsertError::ExceedsLimit)));
+        f = 4;
+    } else {
+        let Ok(res) = r else { panic!("in-window NEW_CONNECTION_ID must be accepted") };
+        // the new CID is stored under its sequence number
+        assert!(matches!(lookup(&q, sequence), Some((c, Some(t))) if c.len() == 8 && c[0] == new_tag && c[7] == new_tag && t[0] == new_tag && t[15] == new_tag));
+        match res {
+            None => {
+                assert!(retired_count == 0);
+                assert!(q.offset == offset && q.cursor == cursor);
+                f = 1;
+            }
+            Some((range, token)) => {
+                assert!(retired_count > 0);
+                assert!(range.start == offset && range.end > range.start && range.end - range.start <= 5);
+                assert!(q.offset >= retire_prior_to && q.offset <= sequence && q.offset > offset);
+                assert!(range.end == q.offset.min(offset + 5));
+                // the token handed back belongs to the new active CID
+                assert!(matches!(q.buffer[q.cursor], Some((_, Some(t))) if t[0] == token[0]));
+                assert!(token[0] == if q.offset == sequence { new_tag } else { a.tag[(q.offset - offset) as usize % 5] });
+                f = 8;
+            }
+        }
+        // every previously stored CID that was not retired (and not replaced) is still there
+        let pseq = offset + probe as u64;
+        if a.occ[probe as usize] && pseq >= retire_prior_to && pseq != sequence {
+            assert!(matches!(lookup(&q, pseq), Some((c, _)) if c[0] == a.tag[probe as usize]));
+        }
+        // nothing below retire_prior_to / below the active sequence survives
+        assert!(q.active_seq() >= retire_prior_to.min(sequence) || retired_count == 0);
+        // the active CID is the smallest stored one
+        assert!(q.active()[0] == q.buffer[q.cursor].unwrap().0[0]);
+    }
+    if was_err {
+        assert!(q.offset == offset && q.cursor == cursor);
+        assert!(lookup(&q, offset + probe as u64).is_some() == a.occ[probe as usize]);
+    }
+    assert!(inv_q(&q));
+    assert!(q.offset >= offset);
+    f
+}
+
+/// C03.g / C09: one `CidQueue::next` (switch to the next remote CID): None iff no other CID is
+/// stored (state unchanged); otherwise the active CID is dropped, the next stored one becomes
+/// active, its token is returned with the non-empty range of sequence numbers to retire.
+pub fn next_step(cursor: u8, offset: u64, occ: [bool; 5], tag: [u8; 5], has_tok: [bool; 5]) -> u32 {
+    let a = Abs { occ, tag, has_tok };
+    let cursor = cursor as usize;
+    if !inv(cursor, offset, &a) {
+        return 0;
+    }
+    let mut q = build(cursor, offset, &a);
+    let active0 = q.active();
+    assert!(active0 == cid_of(tag[0]) && q.active_seq() == offset);
+    // first occupied slot after the active one
+    let mut nxt = 0usize;
+    let mut s = 1;
+    while s < 5 {
+        if occ[s] && nxt == 0 {
+            nxt = s;
+        }
+        s += 1;
+    }
+    let r = q.next();
+    let f;
+    match r {
+        None => {
+            assert!(nxt == 0);
+            assert!(q.offset == offset && q.cursor == cursor && q.active() == active0);
+            f = 2;
+        }
+        Some((token, range)) => {
+            assert!(nxt != 0);
+            assert!(range.start == offset && range.end == offset + nxt as u64);
+            assert!(q.offset == range.end && q.cursor == (cursor + nxt) % 5);
+            assert!(q.active() == cid_of(tag[nxt]) && token == tok_of(tag[nxt]));
+            // the previously active CID is no longer stored anywhere
+            assert!(lookup(&q, offset).is_none());
+            f = 1;
+        }
+    }
+    assert!(inv_q(&q));
+    f
+}
+
+/// Base case: `CidQueue::new` satisfies the invariant; `update_initial_cid` replaces the active CID.
+pub fn new_is_valid(t0: u8, t1: u8) -> u32 {
+    let mut q = CidQueue::new(cid_of(t0));
+    assert!(inv_q(&q) && q.active() == cid_of(t0) && q.active_seq() == 0);
+    assert!(q.next().is_none());
+    q.update_initial_cid(cid_of(t1));
+    assert!(inv_q(&q) && q.active() == cid_of(t1) && q.active_seq() == 0);
+    1
+}
